@@ -174,20 +174,19 @@ Proof.
   apply andb_prop in H. destruct H as [H1 H2]. apply sval_eqb_eq in H1. apply IH in H2. subst. reflexivity.
 Qed.
 
-(* served through an external internal symbol: the trace starts with exactly that call, with
-   the specified argument vector *)
+(* served through an external internal symbol: apart from the markers of helpers executed in
+   line, the trace starts with exactly that call, with the specified argument vector *)
 Lemma shape_ok_call : forall sh r tr, sh_inline sh = false -> shape_ok sh r tr = true ->
-  exists rest, tr = EvCall (sh_callee sh) (sh_args sh) :: rest /\ store_ok sh rest = true /\
+  exists rest, no_enter tr = EvCall (sh_callee sh) (sh_args sh) :: rest /\ store_ok sh rest = true /\
                ret_ok (sh_ret sh) (sh_callee sh) r = true.
 Proof.
-  intros sh r tr Hi H. unfold shape_ok in H. destruct tr as [|ev rest]; [ discriminate |].
+  intros sh r tr Hi H. unfold shape_ok in H. rewrite Hi in H.
+  destruct (no_enter tr) as [|ev rest]; [ discriminate |].
   destruct ev; try discriminate.
-  - apply andb_prop in H; destruct H as [H He].
-    apply andb_prop in H; destruct H as [H Hs].
-    apply andb_prop in H; destruct H as [H Ha].
-    apply andb_prop in H; destruct H as [_ Hf].
-    apply N.eqb_eq in Hf. apply svals_eqb_eq in Ha. subst. exists rest. auto.
-  - rewrite Hi in H. discriminate.
+  apply andb_prop in H; destruct H as [H He].
+  apply andb_prop in H; destruct H as [H Hs].
+  apply andb_prop in H; destruct H as [Hf Ha].
+  apply N.eqb_eq in Hf. apply svals_eqb_eq in Ha. subst. exists rest. auto.
 Qed.
 
 (* ------------------------------------------------------------------ legacy *)
@@ -204,13 +203,11 @@ Proof.
   - apply andb_prop in H; destruct H as [H _].
     apply andb_prop in H; destruct H as [H Hr].
     apply andb_prop in H; destruct H as [H Hl].
-    apply andb_prop in H; destruct H as [H Ha].
-    apply andb_prop in H; destruct H as [_ Hf].
+    apply andb_prop in H; destruct H as [Hf Ha].
     destruct rest; [| discriminate ].
     apply N.eqb_eq in Hf. apply svals_eqb_eq in Ha. apply Nat.eqb_eq in Hl. subst.
     exists d, r. split; [ reflexivity |]. split; [ exact Et |].
     rewrite <- Hl. clear. generalize 0. induction (f_params d); intros; simpl; auto.
-  - rewrite Hi in H. discriminate.
 Qed.
 
 (* ------------------------------------------------------------------ C13 *)
